@@ -390,3 +390,46 @@ def run(ctx):
             else:
                 ctx.bad(R_eof, "%s|%s|unbounded-reader" % (norm(f.path), tname), "%s:%d" % (f.file, c["ln"]), "%s reads until end of stream but is parsed from `%s`" % (tname, aty[:50] or "?"),
                         "the list swallows every chunk that follows it in the file: the parsed content differs from what was written and each parse→rebuild round grows the file")
+
+    # MCNK size fields: the convention (with / without the 8-byte sub-chunk header) is the same where the field is
+    # written and where it is consumed
+    R_sz = ctx.rule("C14.mcnk-size-field-convention-agrees", "for every `header.size_X` the serializer stores, bytes written from the sub-chunk start = 8 + bytes the MCNK reader takes after the sub-chunk header", floor=3)
+    wsz = {}
+    for f in adt.fn_list:
+        if f.kind == "Closure" or not f.hir or "builder::serializer" not in f.path:
+            continue
+        for a in hirq.find(f.hir["body"], "assign"):
+            l = hirq.strip(a["l"])
+            if l.get("k") == "field" and l["name"].startswith("size_") and hirq.lit_int(a["r"]) is None:
+                r_ = hirq.strip(a["r"])
+                while r_.get("k") == "cast" or (r_.get("k") == "block" and not r_.get("stmts") and r_.get("e")):
+                    r_ = hirq.strip(r_["e"])
+                txt = hirq.render(r_)
+                if r_.get("k") == "bin" and r_["op"] == "-":
+                    k_w = 8 if hirq.lit_int(r_["r"]) == 8 else (0 if hirq.lit_int(r_["r"]) is None else None)
+                    if k_w is not None:
+                        wsz[l["name"]] = (k_w, f, a["ln"], txt)
+    rd_fns = [f for f in adt.fn_list if f.kind != "Closure" and f.hir and "chunks::mcnk::chunk" in f.path and "::tests::" not in f.path]
+    for name, (k_w, wf, wln, wtxt) in sorted(wsz.items()):
+        j_r = None
+        where = None
+        for f in rd_fns:
+            for x in hirq.walk(f.hir["body"]):
+                if x.get("k") == "field" and x["name"] == name and hirq.render(x).startswith("header."):
+                    if j_r is None:
+                        j_r, where = 0, (f, x["ln"])
+            for x in hirq.walk(f.hir["body"]):
+                if x.get("k") == "mcall" and x["m"] in ("saturating_sub", "wrapping_sub", "checked_sub") and hirq.render(x["recv"]).endswith("header." + name) and hirq.lit_int(x["args"][0]) == 8:
+                    j_r, where = 8, (f, x["ln"])
+                if x.get("k") == "bin" and x["op"] == "-" and hirq.render(hirq.strip(x["l"])).endswith("header." + name) and hirq.lit_int(x["r"]) == 8:
+                    j_r, where = 8, (f, x["ln"])
+        if j_r is None:
+            ctx.note_unarmed(R_sz, name, "field is stored by the serializer but not consumed by the MCNK reader")
+            continue
+        ctx.saw_fn(wf)
+        if k_w + j_r == 8:
+            ctx.ok(R_sz, {"field": name, "writer": wtxt[:60], "writer_excludes_header": k_w == 8, "reader_subtracts_header": j_r == 8})
+        else:
+            ctx.bad(R_sz, "mcnk|%s|convention" % name, "%s:%d" % (where[0].file, where[1]), "the serializer stores %s = `%s` (%s the 8-byte sub-chunk header) but the reader, after reading that header, takes %s bytes" % (
+                name, wtxt[:50], "without" if k_w == 8 else "including", "%s - 8" % name if j_r == 8 else name),
+                    "the reader consumes %d bytes %s than were written for this sub-chunk: at the end of the file the tile no longer parses (failed to fill whole buffer), elsewhere the neighbouring sub-chunk is misread" % (8, "more" if k_w + j_r < 8 else "fewer"))
